@@ -118,6 +118,13 @@ func cmdRun(args []string) int {
 		eng.Pool2 = sym.NewPool(*solver2, *qto)
 		defer eng.Pool2.Close()
 	}
+	for _, n := range []string{*solver, *solver2, "z3new"} {
+		if n != "" {
+			sp := sym.NewPool(n, *qto*12)
+			defer sp.Close()
+			eng.SlowPools = append(eng.SlowPools, sp)
+		}
+	}
 	eng.RepoDir = *repo
 	for _, s := range stubs {
 		kv := strings.SplitN(s, "=", 2)
